@@ -145,6 +145,19 @@ struct Case {
     via_real_file: bool,
     /// with via_real_file: the path is a FIFO (metadata length 0) fed by a helper thread
     via_fifo: bool,
+    /// a second, independent line parser (its own generated file behind a plain in-memory reader)
+    /// is alive during the run and is advanced by 0..3 items between any two calls on the parser
+    /// under observation: two parser tasks interleaved on one thread by the seeded schedule.
+    /// (generator seed, run index, schedule seed)
+    companion: Option<(u64, u64, u64)>,
+}
+
+/// The companion's registry file: a pure function of (seed, idx), never corrupted.
+fn companion_file(seed: u64, idx: u64) -> FileModel {
+    let mut rng = Rng::derive(seed, idx, 23);
+    let mut cfg = gen_cfg(&mut rng, false);
+    cfg.rows = cfg.rows.min(400);
+    gen_file(&mut rng, &cfg)
 }
 
 #[derive(Clone, Debug)]
@@ -186,6 +199,7 @@ struct Outcome {
     used_count: bool,
     used_fold: bool,
     used_fifo: bool,
+    companion_items: u64,
     /// after a hard read error: did the parser deliver an error item (at all / not at the failing call itself)?
     failure_reported: bool,
     failure_reported_late: bool,
@@ -227,7 +241,7 @@ fn run_case(case: &Case, scratch: Option<&Path>) -> Outcome {
     let mut out = Outcome {
         violation: None, trace: vec![], stats: ReadStats::default(), items: 0, delivered_ok: 0, delivered_err: 0,
         hard_fired_at_call: None, rows_after_hard_error: 0, of_which_not_in_file: 0, max_error_line: 0, asked_after_none: 0,
-        line_longer_than_buffer: data.split(|b| *b == b'\n').any(|l| l.len() > 8192), longest_line: data.split(|b| *b == b'\n').map(|l| l.len() + 1).max().unwrap_or(0), used_nth: false, used_count: false, used_fold: false, used_fifo: false, failure_reported: false, failure_reported_late: false, history_hash: 0,
+        line_longer_than_buffer: data.split(|b| *b == b'\n').any(|l| l.len() > 8192), longest_line: data.split(|b| *b == b'\n').map(|l| l.len() + 1).max().unwrap_or(0), used_nth: false, used_count: false, used_fold: false, used_fifo: false, companion_items: 0, failure_reported: false, failure_reported_late: false, history_hash: 0,
     };
     let max_calls = expected.len() + 8;
     let mut hh = hash_bytes(&data);
@@ -269,6 +283,36 @@ fn run_case(case: &Case, scratch: Option<&Path>) -> Outcome {
     } else {
         via_sim = Some(CsvLineParser::from_reader(rdr));
     }
+    // the companion parser task (see Case::companion)
+    let mut comp: Option<(CsvLineParser<std::io::Cursor<Vec<u8>>, PrecisDerivedProperty>, Vec<Entry>, usize, Rng)> = case.companion.map(|(s, ix, sched)| {
+        let f = companion_file(s, ix);
+        (CsvLineParser::from_reader(std::io::Cursor::new(f.bytes())), f.expectations(), 0usize, Rng::new(sched))
+    });
+    let mut comp_violation: Option<Violation> = None;
+    let mut comp_items = 0u64;
+    let mut comp_step = |comp: &mut Option<(CsvLineParser<std::io::Cursor<Vec<u8>>, PrecisDerivedProperty>, Vec<Entry>, usize, Rng)>| {
+        if let Some((p, exp, k, rng)) = comp.as_mut() {
+            let pulls = rng.below(4);
+            for _ in 0..pulls {
+                if comp_violation.is_some() || *k > exp.len() {
+                    break;
+                }
+                let got = match std::panic::catch_unwind(std::panic::AssertUnwindSafe(|| p.next())) {
+                    Ok(x) => classify(x),
+                    Err(_) => Got::Panic,
+                };
+                comp_items += 1;
+                let bad = match exp.get(*k) {
+                    Some(e) => judge(&e.exp, &got, e.line).map(|kind| (kind, e.line, expect_to_json(&e.exp))),
+                    None => if got == Got::None { None } else { Some(("extra_row", exp.len() as u64 + 2, json!("None (end of file)"))) },
+                };
+                if let Some((kind, line, expected)) = bad {
+                    comp_violation = Some(Violation { kind: kind.into(), index: *k, line, expected, got: got_to_json(&got), row_class: "companion_parser".into(), row_text: String::new() });
+                }
+                *k += 1;
+            }
+        }
+    };
     let plain = case.config == "strict" && !case.file.has_corruption();
     let nth_at = if plain { case.consumer.nth_at } else { None };
     let count_after = if plain { case.consumer.count_after } else { None };
@@ -355,6 +399,7 @@ fn run_case(case: &Case, scratch: Option<&Path>) -> Outcome {
         if count_after == Some(out.items) && ei <= expected.len() {
             // finish through Iterator::count(): every remaining line yields exactly one item
             counted_expect = Some(expected.len() - ei);
+            comp_step(&mut comp);
             let _ = next_op(i, 0, true, expected.len() - ei);
             break;
         }
@@ -362,6 +407,7 @@ fn run_case(case: &Case, scratch: Option<&Path>) -> Outcome {
             Some((at, j)) if at == ei && ei + j <= expected.len() => j,
             _ => 0,
         };
+        comp_step(&mut comp);
         let got = next_op(i, skip, false, expected.len().saturating_sub(ei));
         ei += skip; // the skipped items are not observed; the one returned must be the (ei+skip)-th
         let hard_at = shared.borrow().hard_fired_at_call;
@@ -505,6 +551,20 @@ fn run_case(case: &Case, scratch: Option<&Path>) -> Outcome {
         }
     }
     drop(next_op);
+    // the companion finishes its own file after the observed parser has stopped
+    if out.violation.is_none() {
+        for _ in 0..2000 {
+            match comp.as_ref() {
+                Some((_, exp, k, _)) if *k <= exp.len() => comp_step(&mut comp),
+                _ => break,
+            }
+        }
+    }
+    drop(comp_step);
+    out.companion_items = comp_items;
+    if out.violation.is_none() {
+        out.violation = comp_violation;
+    }
     if out.violation.is_none() {
         if let (Some(want), Some(got)) = (counted_expect, counted) {
             out.used_count = true;
@@ -632,6 +692,7 @@ fn plan_case(seed: u64, idx: u64, tier: &str) -> Case {
         },
         via_real_file,
         via_fifo: via_real_file && len <= 200_000 && rng.chance(1, 4),
+        companion: if rng.chance(1, 6) { Some((seed, idx, rng.next_u64())) } else { None },
     }
 }
 
@@ -646,6 +707,8 @@ fn case_to_json(c: &Case, trace: &[Dec]) -> Value {
                      "nth_at": c.consumer.nth_at.map(|(a, j)| json!([a, j])), "count_after": c.consumer.count_after, "fold_after": c.consumer.fold_after},
         "via_real_file": c.via_real_file,
         "via_fifo": c.via_fifo,
+        "companion_parser": c.companion.map(|(a, b, d)| json!({"gen_seed": a.to_string(), "gen_idx": b.to_string(), "schedule_seed": d.to_string(),
+            "file_bytes_hex": simcore::hex(&companion_file(a, b).bytes())})),
     })
 }
 
@@ -664,6 +727,10 @@ fn case_from_json(v: &Value) -> Option<Case> {
         },
         via_real_file: v.get("via_real_file").and_then(|x| x.as_bool()).unwrap_or(false),
         via_fifo: v.get("via_fifo").and_then(|x| x.as_bool()).unwrap_or(false),
+        companion: v.get("companion_parser").filter(|x| x.is_object()).and_then(|c| {
+            let g = |k: &str| c.get(k).and_then(|x| x.as_str()).and_then(|x| x.parse::<u64>().ok());
+            Some((g("gen_seed")?, g("gen_idx")?, g("schedule_seed")?))
+        }),
     })
 }
 
@@ -791,6 +858,10 @@ fn worker(seed: u64, from: u64, to: u64, tier: &str, scratch: &Path) -> (Value, 
         if o.used_fifo {
             bump("probe_from_path_over_a_fifo", 1);
         }
+        if case.companion.is_some() {
+            bump("probe_runs_with_interleaved_companion_parser", 1);
+            bump("probe_companion_parser_items_judged", o.companion_items);
+        }
         distinct.insert(o.history_hash);
         if o.stats.split_inside_line > 0 || o.stats.eintr > 0 || o.stats.hard_errors > 0 || case.torn_at.is_some() || ncorrupt > 0 {
             distinct_nontrivial.insert(o.history_hash);
@@ -861,6 +932,11 @@ fn same_kind(a: &Violation, kind: &str, class: &str) -> bool {
 
 fn shrink_case(case: &Case) -> Vec<Case> {
     let mut out = vec![];
+    if case.companion.is_some() {
+        let mut c = case.clone();
+        c.companion = None;
+        out.push(c);
+    }
     let n = case.file.rows.len();
     // drop rows (halves first, then single rows)
     if n > 4 {
